@@ -43,7 +43,7 @@ add("a2_seq_step_16", "msgpack", desc="A2 with input <= 16 B", bounds="input <= 
 add("a3_map_step", "msgpack",
     desc="total_map_size: two runs of `pairs` elements, the second on the bytes after the first, same depth; size = sum",
     bounds="input <= 8 B; pairs any u32; depth any usize", functions=A_FUN,
-    covers=["A3 both runs non-empty", "A3 second run fails"], props=["C04", "C18", "C02", "C03"], timeout=300, mem_gb=8,
+    covers=["A3 both runs non-empty", "A3 second run fails"], props=["C04", "C18", "C02", "C03"], timeout=900, mem_gb=8,
     assumptions=A_ASM, replay="msgpack")
 add("a4_nvs_full_d1", "msgpack",
     desc="whole recursion without stubs at depth limit 1 equals the reference sizer (every scalar/ext/str/bin width; collections rejected for depth or truncation)",
@@ -77,14 +77,14 @@ add("b2_utf16_next", "yaml::encoding",
     desc="Utf16Decoder::next equals the reference decoder (Unicode D91): BMP unit, well-formed pair, lone trail, lead+non-trail (unit kept and re-examined), lead at EOF; every produced char is a scalar value (discharges both from_u32_unchecked sites)",
     bounds="two code units, all 2^32 value pairs; both byte orders; 0..4 bytes present; every windowing of the source",
     functions=B_FUN[1:3], covers=["B2 surrogate pair above plane 1", "B2 lone trail surrogate", "B2 lead followed by non-trail", "B2 lead at end of input"],
-    props=["C07", "C17", "C01"], timeout=600, mem_gb=10, assumptions=B_SRC, thorough_props=["C04"])
+    props=["C07", "C17", "C01"], timeout=1200, mem_gb=10, assumptions=B_SRC, thorough_props=["C04"])
 add("b2_utf16_next_fault", "yaml::encoding",
     desc="B2 with a source that fails from a symbolic offset: a fault is Some(Err), never a fabricated char and never a clean end",
     bounds="as B2; fault offset any 0..=len", functions=B_FUN[1:3], covers=["B2 reader fault reached"],
-    props=["C12", "C07"], timeout=600, mem_gb=10, assumptions=B_SRC)
+    props=["C12", "C07"], timeout=1200, mem_gb=10, assumptions=B_SRC)
 add("b2_utf16_truncated_unit", "yaml::encoding", desc="an odd trailing byte (1 or 3 bytes) is an error after the complete units",
     bounds="3 symbolic bytes, both byte orders", functions=B_FUN[1:3], covers=["B2 truncated second unit"],
-    props=["C07"], timeout=300, mem_gb=8, assumptions=B_SRC, thorough_props=["C04"])
+    props=["C07"], timeout=1200, mem_gb=8, assumptions=B_SRC, thorough_props=["C04"])
 add("b3_utf32_next", "yaml::encoding",
     desc="Utf32Decoder::next: Ok(c) iff 4 bytes present and the value is a scalar (<= 0x10FFFF, not D800-DFFF) and c equals it; 1-3 bytes -> Err; 0 bytes -> None",
     bounds="one code unit, all 2^32 values; both byte orders; 0..4 bytes present; every windowing", functions=B_FUN[3:4],
@@ -98,11 +98,11 @@ add("b4_utf8_step_quick", "yaml::encoding",
     desc="one Utf8Encoder::read from an arbitrary state: returns min(want, pending) bytes, they are the next bytes of the reference UTF-8 stream (BOM skipped iff first), post-state encodes exactly the rest; remainder indices in range",
     bounds="2 pending chars (all scalar values), remainder any 0..4 bytes, caller buffer 0..5", functions=B_FUN[4:7],
     covers=["B4 char split across two reads", "B4 leading BOM skipped"],
-    props=["C07", "C02"], timeout=900, mem_gb=12, assumptions=B4_ASM, thorough_props=["C04"])
+    props=["C07", "C02"], timeout=1800, mem_gb=12, assumptions=B4_ASM, thorough_props=["C04"])
 add("b4_utf8_step_err_quick", "yaml::encoding",
     desc="B4 with an Err item at a symbolic position of the character source: read returns Err exactly when the item is reached, never a short Ok",
     bounds="as b4_utf8_step_quick; error position any 0..=n", functions=B_FUN[4:7], covers=["B4 source error surfaces as Err"],
-    props=["C12", "C07"], timeout=900, mem_gb=12, assumptions=B4_ASM)
+    props=["C12", "C07"], timeout=1800, mem_gb=12, assumptions=B4_ASM)
 add("b4_utf8_step_full", "yaml::encoding", desc="B4 with 3 pending chars and caller buffer 0..9 (covers the direct-encode loop for buffers >= 4 twice)",
     bounds="3 pending chars, remainder any, caller buffer 0..9", functions=B_FUN[4:7], covers=["B4 char split across two reads"],
     tier="thorough", props=["C07", "C04", "C02"], timeout=3000, mem_gb=20, assumptions=B4_ASM, best_effort=True)
@@ -236,7 +236,7 @@ add("d3_totality", "transcode::stream",
 add("d3_totality_small", "transcode::stream",
     desc="as D2 with panic, unwrap/expect, overflow and unwinding checks on (pointer checks off - the transcoder has no unsafe code; the full-check variant d3_totality is in the thorough tier): no panic of the transcoder for any event sequence and any single fault",
     bounds="<= 3 events, nesting 1, faults anywhere", functions=D_FUN, covers=["D deserializer fault inside a collection"],
-    flags=["--no-memory-safety-checks", "-Z", "unstable-options"], props=["C04", "C12"], timeout=1200, mem_gb=16, assumptions=D_ASM, replay="stream")
+    flags=["--no-memory-safety-checks", "-Z", "unstable-options"], props=["C04", "C12"], timeout=2400, mem_gb=16, assumptions=D_ASM, replay="stream")
 add("d4_nest2", "transcode::stream", desc="D2 at nesting 2 (best effort)", bounds="<= 4 events, nesting 2", functions=D_FUN,
     covers=["D4 nesting two reached"], flags=NOCHK, tier="thorough", props=["C11", "C12", "C01"], timeout=3000, mem_gb=40, assumptions=D_ASM, replay="stream", best_effort=True)
 
@@ -319,7 +319,7 @@ add("a5_split_loop", "msgpack", overlay=DEP,
 add("i4_msgpack_output_framing", "msgpack", overlay=DEP,
     desc="msgpack::Output: two documents are written back to back in order; with short writes the writer still receives exactly the output; a write fault => Err, accepted bytes are a prefix",
     bounds="2 one-token documents, short writes of any pattern, writer fault at any byte", functions=["msgpack::Output::transcode_from", "transcode::stream::transcode"],
-    covers=["I4 msgpack short writes"], props=["C03", "C12"], timeout=900, mem_gb=12, assumptions=I_ASM)
+    covers=["I4 msgpack short writes"], props=["C03", "C12"], timeout=1500, mem_gb=12, assumptions=I_ASM)
 add("i5_yaml_docless_slice", "yaml", overlay=DEP,
     desc="a YAML stream without any document (blank lines) from a slice: the real yaml::transcode fast path against a serde_yaml model that - like the real Loader - hands out ONE void document (visiting `none`) for a document-less stream must not call the output at all and must succeed, because that is what the reader path does with the same bytes (K9: the chunker yields no document; K7: transcode_reader then succeeds without calling the output) and the streaming transcoder refuses a void document (no visit_none)",
     bounds="0..3 blank bytes", functions=["yaml::transcode (slice fast path)"],
@@ -339,7 +339,7 @@ add("i4_json_output_framing", "json", overlay=DEP,
 add("i2_yaml_routing", "yaml", overlay=DEP,
     desc="yaml::transcode slice input: exactly one route; the raw-bytes fast path only when Encoding::detect says UTF-8 (otherwise a slice is parsed differently from the same bytes through a reader)",
     bounds="input 0..4 symbolic bytes", functions=["yaml::transcode", "yaml::encoding::Encoding::detect"],
-    covers=["I2 fast path", "I2 re-encoding route for a valid-UTF-8 slice", "I2 re-encoding route for invalid UTF-8"], props=["C07", "C02"], timeout=900, mem_gb=12,
+    covers=["I2 fast path", "I2 re-encoding route for a valid-UTF-8 slice", "I2 re-encoding route for invalid UTF-8"], props=["C07", "C02"], timeout=1200, mem_gb=12,
     assumptions=I_ASM[:1] + ["yaml::transcode_reader replaced by a stub recording that the re-encoding route was taken (the route itself is family B)"], replay="f3")
 add("i5_yaml_slice_loop", "yaml", overlay=DEP,
     desc="yaml::transcode fast path: one transcode_from per document in order; a failing document or output stops the loop", bounds="ASCII input 0..3 bytes, output failure at any document",
